@@ -63,14 +63,47 @@ contracts = {
     after_call={("Scheduler._consume_resources", 0): "held[job] = Some(arg0)"},
     at_call={"submit": ["not self._dryrun", "held[job] == Some(limits_of(job))"],
              "submit_script": ["not self._dryrun", "held[job] == Some(limits_of(job))"]}),
+ "Job.collapse.then": dict(where=f"{SCHED}:Job.collapse.then",
+    params={"self": REF, "other_job": REF, "result": OBJ}, ghost={"held": HELD}, classes={"scheduler": "Scheduler"},
+    requires=["held[self] == None", "not self.holds_limits", SAFE.replace("self.", "get_current_scheduler().")]),
+ "Job.collapse.fail": dict(where=f"{SCHED}:Job.collapse.fail",
+    params={"self": REF, "other_job": REF, "error": OBJ}, ghost={"held": HELD}, classes={"scheduler": "Scheduler"},
+    requires=["held[self] == None", "not self.holds_limits", SAFE.replace("self.", "get_current_scheduler().")]),
 }
 
 MODULE = Module(
     fields={"limits_used": Arr(STR, INT), "limits": LIM, "_dryrun": BOOL, "was_cached": BOOL, "holds_limits": BOOL},
     classes={"self": "Scheduler", "job": "Job"},
-    ufuns={"limits_of": ([REF], LIM)},
+    ufuns={"limits_of": ([REF], LIM), "get_current_scheduler": ([], REF)},
     stable={"task": OBJ},
     contracts=contracts,
 )
 ASSUMED = ["Job.get_limits", "Scheduler._get_cache", "Scheduler._check_jobs_pending_limits"]
 VERIFY = [k for k in contracts if k not in ASSUMED]
+
+
+from pyvc import frame_scan
+from pyvc.result import Result
+
+
+def frame_checks(tier, seed):
+    S = "redun/scheduler.py:"
+    return [
+        frame_scan.check("C08", "limits_used", {S + "Scheduler.__init__", S + "Scheduler._consume_resources", S + "Scheduler._release_resources"}, Result),
+        frame_scan.check("C08", "holds_limits", {S + "Job.__init__", S + "Scheduler._exec_job_main_thread", S + "Scheduler._done_job_main_thread", S + "Scheduler._reject_job_main_thread"}, Result),
+        frame_scan.check("C08", "was_cached", {S + "Job.__init__", S + "Job.collapse.then", S + "Job.collapse.fail", S + "Scheduler._exec_job_main_thread"}, Result),
+    ]
+
+
+EXTRA_CHECKS = [frame_checks]
+EXPECTED_MIN_OBLIGATIONS = 60
+TRUSTED = ["A-LOG", "A-QUEUE", "A-ALIAS", "A-LOCK", "A-LIMITS-NONNEG", "assumed contracts: " + ", ".join(ASSUMED)]
+ASSUMPTIONS = [
+    "A-QUEUE: a call deferred through events_queue.put(lambda: f(...)) / .then / .catch is verified as a call of f whose precondition is checked where the closure is created; job-local facts are stable until it runs",
+    "A-ALIAS: tracked attributes are only written through the syntactic sites found by the frame scan",
+    "A-LIMITS-NONNEG: per-job limit counts are non-negative (list form gives 1); Job.get_limits() is a function of the job between consume and release",
+    "opaque calls (backend, executor, logging, promise plumbing) do not write limits_used/holds_limits/was_cached/_dryrun (frame scan)",
+    "exceptions escaping a handler abort the scheduler loop and are outside the accounting protocol",
+    "sum_held lemma (used[k] == sum of held[j][k]) is a paper induction over the protocol proved here: consume only with held==None, release only with held==Some(what was consumed)",
+    "assumed (not verified here): " + ", ".join(ASSUMED),
+]
